@@ -350,6 +350,38 @@ pub fn gen_catalog(rng: &mut Rng, opts: &CatalogOpts) -> BuiltCatalog {
             }
         }
     }
+    // Entries that come and go: a catalog that was edited (reloads remove
+    // zones) must select zones exactly like one that was only ever inserted
+    // into. Decoys sit below, above and beside the entries that stay.
+    if rng.chance(1, 2) {
+        let mut decoys: Vec<(RName, u16)> = Vec::new();
+        for _ in 0..rng.range(1, 4) {
+            let (base, class) = match rng.below(4) {
+                0 => (RName::simple(APEXES[rng.below(APEXES.len())]), *rng.pick(&opts.classes)),
+                _ if !reference.entries.is_empty() => {
+                    let e = rng.pick(&reference.entries);
+                    (e.name.clone(), e.class)
+                }
+                _ => (RName::root(), *rng.pick(&opts.classes)),
+            };
+            let name = match rng.below(4) {
+                0 => base.parent(1).unwrap_or(base.clone()),
+                1 => base.child(b"gone"),
+                2 => base.child(b"gone").child(b"deep"),
+                _ => base.clone(),
+            };
+            if !name.is_valid() || reference.get(&name, class).is_some() || decoys.iter().any(|(n, c)| n.eq_ci(&name) && *c == class) {
+                continue;
+            }
+            id += 1;
+            catalog.insert(Entry::FailedToLoad(qname(&name), Class::from(class), id));
+            decoys.push((name, class));
+        }
+        rng.shuffle(&mut decoys);
+        for (name, class) in decoys {
+            catalog.remove(&qname(&name), Class::from(class));
+        }
+    }
     BuiltCatalog { reference, catalog, disagreements }
 }
 
